@@ -311,7 +311,7 @@ def run (P : Prims) : PEnv → List Stmt → Except Err Rat
 def relEnv (rel : Rel) (L a b : Rat) : PEnv :=
   [("length", .num L), (rel.in1.name, .num a), (rel.in2.name, .num b)]
 
-/-! ### the bodies as the model knows them (pinned to the generated token lists by `T_C03_translated_source`) -/
+/-! ### the bodies as the model knows them (pinned to the generated token lists by `T_C03_translated_source_*`; locals are named `v0, v1, …` in order of first appearance, as the translator renames them) -/
 
 /-- `get_c2c_expansion__count__end_size` -/
 def body_c2c_count_end : List Stmt :=
@@ -321,14 +321,14 @@ def body_c2c_count_end : List Stmt :=
    .retIf (.cmp .lt (.div (.abs (.sub (.mul (.var "count") (.var "end_size")) (.var "length"))) (.var "length")) (.tol))
       (.lit 1),
    .ite (.cmp .gt (.mul (.var "count") (.var "end_size")) (.var "length"))
-      [("c_max", .pow (.rmax) (.div (.lit 1) (.sub (.var "count") (.lit 1)))),
-       ("c_min", .pow (.add (.lit 1) (.tol)) (.div (.lit 1) (.sub (.var "count") (.lit 1))))]
-      [("c_max", .pow (.sub (.lit 1) (.tol)) (.div (.lit 1) (.sub (.var "count") (.lit 1)))),
-       ("c_min", .pow (.div (.lit 1) (.rmax)) (.div (.lit 1) (.sub (.var "count") (.lit 1))))],
-   .defn "fexp" "c2c"
-      (.sub (.div (.mul (.div (.lit 1) (.pow (.var "c2c") (.sub (.var "count") (.lit 1)))) (.sub (.lit 1) (.pow (.var "c2c") (.var "count")))) (.sub (.lit 1) (.var "c2c"))) (.div (.var "length") (.var "end_size"))),
-   .raiseIf (.cmp .ge (.mul (.call "fexp" (.var "c_min")) (.call "fexp" (.var "c_max"))) (.lit 0)),
-   .ret (.brentq "fexp" (.var "c_min") (.var "c_max"))]
+      [("v0", .pow (.rmax) (.div (.lit 1) (.sub (.var "count") (.lit 1)))),
+       ("v1", .pow (.add (.lit 1) (.tol)) (.div (.lit 1) (.sub (.var "count") (.lit 1))))]
+      [("v0", .pow (.sub (.lit 1) (.tol)) (.div (.lit 1) (.sub (.var "count") (.lit 1)))),
+       ("v1", .pow (.div (.lit 1) (.rmax)) (.div (.lit 1) (.sub (.var "count") (.lit 1))))],
+   .defn "v2" "v3"
+      (.sub (.div (.mul (.div (.lit 1) (.pow (.var "v3") (.sub (.var "count") (.lit 1)))) (.sub (.lit 1) (.pow (.var "v3") (.var "count")))) (.sub (.lit 1) (.var "v3"))) (.div (.var "length") (.var "end_size"))),
+   .raiseIf (.cmp .ge (.mul (.call "v2" (.var "v1")) (.call "v2" (.var "v0"))) (.lit 0)),
+   .ret (.brentq "v2" (.var "v1") (.var "v0"))]
 
 /-- `get_c2c_expansion__count__start_size` -/
 def body_c2c_count_start : List Stmt :=
@@ -340,14 +340,14 @@ def body_c2c_count_start : List Stmt :=
    .retIf (.cmp .lt (.div (.abs (.sub (.mul (.var "count") (.var "start_size")) (.var "length"))) (.var "length")) (.tol))
       (.lit 1),
    .ite (.cmp .lt (.mul (.var "count") (.var "start_size")) (.var "length"))
-      [("c_max", .pow (.rmax) (.div (.lit 1) (.sub (.var "count") (.lit 1)))),
-       ("c_min", .pow (.add (.lit 1) (.tol)) (.div (.lit 1) (.sub (.var "count") (.lit 1))))]
-      [("c_max", .pow (.sub (.lit 1) (.tol)) (.div (.lit 1) (.sub (.var "count") (.lit 1)))),
-       ("c_min", .pow (.div (.lit 1) (.rmax)) (.div (.lit 1) (.sub (.var "count") (.lit 1))))],
-   .defn "fexp" "c2c"
-      (.sub (.div (.sub (.lit 1) (.pow (.var "c2c") (.var "count"))) (.sub (.lit 1) (.var "c2c"))) (.div (.var "length") (.var "start_size"))),
-   .raiseIf (.cmp .ge (.mul (.call "fexp" (.var "c_min")) (.call "fexp" (.var "c_max"))) (.lit 0)),
-   .ret (.brentq "fexp" (.var "c_min") (.var "c_max"))]
+      [("v0", .pow (.rmax) (.div (.lit 1) (.sub (.var "count") (.lit 1)))),
+       ("v1", .pow (.add (.lit 1) (.tol)) (.div (.lit 1) (.sub (.var "count") (.lit 1))))]
+      [("v0", .pow (.sub (.lit 1) (.tol)) (.div (.lit 1) (.sub (.var "count") (.lit 1)))),
+       ("v1", .pow (.div (.lit 1) (.rmax)) (.div (.lit 1) (.sub (.var "count") (.lit 1))))],
+   .defn "v2" "v3"
+      (.sub (.div (.sub (.lit 1) (.pow (.var "v3") (.var "count"))) (.sub (.lit 1) (.var "v3"))) (.div (.var "length") (.var "start_size"))),
+   .raiseIf (.cmp .ge (.mul (.call "v2" (.var "v1")) (.call "v2" (.var "v0"))) (.lit 0)),
+   .ret (.brentq "v2" (.var "v1") (.var "v0"))]
 
 /-- `get_c2c_expansion__count__total_expansion` -/
 def body_c2c_count_total : List Stmt :=
@@ -362,10 +362,10 @@ def body_count_end_c2c : List Stmt :=
    .validate "_validate_start_end_size" ["end_size", "end"],
    .validate "_validate_c2c_expansion" ["c2c_expansion"],
    .ite (.cmp .gt (.abs (.sub (.var "c2c_expansion") (.lit 1))) (.tol))
-      [("count", .div (.log (.div (.lit 1) (.add (.lit 1) (.div (.mul (.div (.var "length") (.var "end_size")) (.sub (.lit 1) (.var "c2c_expansion"))) (.var "c2c_expansion"))))) (.log (.var "c2c_expansion")))]
-      [("count", .div (.var "length") (.var "end_size"))],
-   .raiseIf (.isnan (.var "count")),
-   .ret (.add (.int (.var "count")) (.lit 1))]
+      [("v0", .div (.log (.div (.lit 1) (.add (.lit 1) (.div (.mul (.div (.var "length") (.var "end_size")) (.sub (.lit 1) (.var "c2c_expansion"))) (.var "c2c_expansion"))))) (.log (.var "c2c_expansion")))]
+      [("v0", .div (.var "length") (.var "end_size"))],
+   .raiseIf (.isnan (.var "v0")),
+   .ret (.add (.int (.var "v0")) (.lit 1))]
 
 /-- `get_count__start_size__c2c_expansion` -/
 def body_count_start_c2c : List Stmt :=
@@ -373,9 +373,9 @@ def body_count_start_c2c : List Stmt :=
    .validate "_validate_start_end_size" ["start_size", "start"],
    .validate "_validate_c2c_expansion" ["c2c_expansion"],
    .ite (.cmp .gt (.abs (.sub (.var "c2c_expansion") (.lit 1))) (.tol))
-      [("count", .div (.log (.sub (.lit 1) (.mul (.div (.var "length") (.var "start_size")) (.sub (.lit 1) (.var "c2c_expansion"))))) (.log (.var "c2c_expansion")))]
-      [("count", .div (.var "length") (.var "start_size"))],
-   .ret (.add (.int (.var "count")) (.lit 1))]
+      [("v0", .div (.log (.sub (.lit 1) (.mul (.div (.var "length") (.var "start_size")) (.sub (.lit 1) (.var "c2c_expansion"))))) (.log (.var "c2c_expansion")))]
+      [("v0", .div (.var "length") (.var "start_size"))],
+   .ret (.add (.int (.var "v0")) (.lit 1))]
 
 /-- `get_count__total_expansion__c2c_expansion` -/
 def body_count_total_c2c : List Stmt :=
@@ -383,9 +383,9 @@ def body_count_total_c2c : List Stmt :=
    .validate "_validate_total_expansion" ["total_expansion"],
    .validate "_validate_c2c_expansion" ["c2c_expansion"],
    .raiseIf (.cmp .le (.abs (.sub (.var "c2c_expansion") (.lit 1))) (.tol)),
-   .assign "count" (.div (.log (.var "total_expansion")) (.log (.var "c2c_expansion"))),
-   .raiseIf (.cmp .lt (.var "count") (.lit 0)),
-   .ret (.add (.int (.var "count")) (.lit 1))]
+   .assign "v0" (.div (.log (.var "total_expansion")) (.log (.var "c2c_expansion"))),
+   .raiseIf (.cmp .lt (.var "v0") (.lit 0)),
+   .ret (.add (.int (.var "v0")) (.lit 1))]
 
 /-- `get_count__total_expansion__start_size` -/
 def body_count_total_start : List Stmt :=
@@ -393,13 +393,13 @@ def body_count_total_start : List Stmt :=
    .validate "_validate_start_end_size" ["start_size", "start"],
    .validate "_validate_total_expansion" ["total_expansion"],
    .ite (.cmp .gt (.var "total_expansion") (.lit 1))
-      [("d_min", .var "start_size")]
-      [("d_min", .mul (.var "start_size") (.var "total_expansion"))],
+      [("v0", .var "start_size")]
+      [("v0", .mul (.var "start_size") (.var "total_expansion"))],
    .retIf (.cmp .lt (.abs (.sub (.var "total_expansion") (.lit 1))) (.tol))
-      (.int (.ceil (.div (.var "length") (.var "d_min")))),
-   .defn "fcnt" "cnt"
-      (.sub (.div (.sub (.lit 1) (.pow (.var "total_expansion") (.div (.var "cnt") (.sub (.var "cnt") (.lit 1))))) (.sub (.lit 1) (.pow (.var "total_expansion") (.div (.lit 1) (.sub (.var "cnt") (.lit 1)))))) (.div (.var "length") (.var "start_size"))),
-   .ret (.add (.int (.brentq "fcnt" (.lit 0) (.div (.var "length") (.var "d_min")))) (.lit 1))]
+      (.int (.ceil (.div (.var "length") (.var "v0")))),
+   .defn "v1" "v2"
+      (.sub (.div (.sub (.lit 1) (.pow (.var "total_expansion") (.div (.var "v2") (.sub (.var "v2") (.lit 1))))) (.sub (.lit 1) (.pow (.var "total_expansion") (.div (.lit 1) (.sub (.var "v2") (.lit 1)))))) (.div (.var "length") (.var "start_size"))),
+   .ret (.add (.int (.brentq "v1" (.lit 0) (.div (.var "length") (.var "v0")))) (.lit 1))]
 
 /-- `get_end_size__start_size__total_expansion` -/
 def body_end_start_total : List Stmt :=
@@ -450,11 +450,11 @@ def relBodies : List (Rel × List Stmt) :=
    (⟨.total, .count, .c2c⟩, body_total_count_c2c),
    (⟨.total, .start, .end_⟩, body_total_start_end)]
 
-def validatorBodies : List (String × List String × List Stmt) :=
-  [("_validate_length", ["length"], [.raiseIf (.cmp .le (.var "length") (.lit 0))]),
-   ("_validate_start_end_size", ["size", "name"], [.raiseIf (.cmp .le (.var "size") (.lit 0))]),
-   ("_validate_c2c_expansion", ["c2c_expansion"], [.raiseIf (.cmp .eq (.var "c2c_expansion") (.lit 0))]),
-   ("_validate_total_expansion", ["expansion"], [.raiseIf (.cmp .eq (.var "expansion") (.lit 0))])]
+def validatorBodies : List (String × Nat × List Stmt) :=
+  [("_validate_length", 1, [.raiseIf (.cmp .le (.var "v0") (.lit 0))]),
+   ("_validate_start_end_size", 2, [.raiseIf (.cmp .le (.var "v0") (.lit 0))]),
+   ("_validate_c2c_expansion", 1, [.raiseIf (.cmp .eq (.var "v0") (.lit 0))]),
+   ("_validate_total_expansion", 1, [.raiseIf (.cmp .eq (.var "v0") (.lit 0))])]
 
 /-! ### `Chop.invert` as a statement list -/
 
